@@ -10,11 +10,13 @@ Import ListNotations.
 (* all object identities occurring in the visible tree *)
 Definition oids (e : err) : list oid := List.map node_oid (visit_all e).
 
-(* kinds compared by value, not by identity *)
+(* kinds compared by value, not by identity; the two non-comparable value
+   types (the leaf ut.NoCmp and the wrapper ut.WNoCmp) are never compared at all *)
 Definition value_kind (e : err) : bool :=
   match e with
   | Leaf _ LDeadline | Leaf _ (LErrno _) | Leaf _ (LUser ULVal _ _ _) | Leaf _ LTestError
   | Leaf _ (LUser ULNoCmp _ _ _) => true
+  | Wrap _ (WUser UWNoCmp _ _) _ => true
   | _ => false
   end.
 
@@ -34,12 +36,32 @@ Definition leaf_of (e : err) : option leafk :=
 Lemma leaf_of_erase e : leaf_of (erase e) = leaf_of e.
 Proof. des_erase e; reflexivity. Qed.
 
+(* the non-comparable wrapper ut.WNoCmp *)
+Definition nocmp_wrap (e : err) : bool :=
+  match e with Wrap _ (WUser UWNoCmp _ _) _ => true | _ => false end.
+
+Lemma nocmp_wrap_erase e : nocmp_wrap (erase e) = nocmp_wrap e.
+Proof. des_erase e; reflexivity. Qed.
+
+(* [comparable] is a function of the leaf kind, except for the wrapper ut.WNoCmp *)
 Lemma comparable_leaf r :
-  comparable r = match leaf_of r with Some (LUser ULNoCmp _ _ _) => false | _ => true end.
-Proof. destruct r; reflexivity. Qed.
+  comparable r =
+  negb (nocmp_wrap r) && match leaf_of r with Some (LUser ULNoCmp _ _ _) => false | _ => true end.
+Proof.
+  destruct r as [i k|i w c|i c s|i m h|i k cs|i m d cs|i p d mt c]; try reflexivity.
+  destruct w as [| | | | | | | | | | | | | | | | | | | |u m xs]; try reflexivity.
+  destruct u; reflexivity.
+Qed.
+
+(* the former statement (without [nocmp_wrap]) fails on that wrapper *)
+Example comparable_leaf_needs_nocmp_wrap :
+  let r := Wrap 1%positive (WUser UWNoCmp (lit "w") []) (Leaf 2%positive (LErrString (lit "x"))) in
+  comparable r = false /\
+  (match leaf_of r with Some (LUser ULNoCmp _ _ _) => false | _ => true end) = true.
+Proof. split; vm_compute; reflexivity. Qed.
 
 Lemma comparable_erase r : comparable (erase r) = comparable r.
-Proof. now rewrite !comparable_leaf, leaf_of_erase. Qed.
+Proof. now rewrite !comparable_leaf, leaf_of_erase, nocmp_wrap_erase. Qed.
 
 Lemma get_mark_nomark e :
   match e with Wrap _ (WMark _) _ => False | _ => True end ->
@@ -111,8 +133,11 @@ Qed.
 
 Ltac des_kind x :=
   let i := fresh "i" in let k := fresh "k" in let u := fresh "u" in
-  destruct x as [i k|i ? ?|i ? ?|i ? ?|i ? ?|i ? ? ?|i ? ? ? ?];
-  [destruct k as [| | | | | | | | | | |u ? ? ?]; [ | | | | | | | | | | |destruct u] | | | | | | ].
+  let w := fresh "w" in let v := fresh "v" in
+  destruct x as [i k|i w ?|i ? ?|i ? ?|i ? ?|i ? ? ?|i ? ? ? ?];
+  [destruct k as [| | | | | | | | | | |u ? ? ?]; [ | | | | | | | | | | |destruct u]
+  |destruct w as [| | | | | | | | | | | | | | | | | | | |v ? ?];
+   [ | | | | | | | | | | | | | | | | | | | |destruct v] | | | | | ].
 
 Lemma go_eq_nid c r :
   (value_kind c = false -> node_oid c <> node_oid r) -> go_eq c r = go_eq_val c r.
